@@ -26,7 +26,7 @@ RULE = ("string level: one case = one input string of one function; exhaustive w
         "random token soups, generated/mutated/unbalanced type strings, all prefixes of the fixed-offset tags; 9 naming rules x names and 8 variant rules x variant names. "
         "Non-trivial = the input contains a non-ASCII byte or a delimiter the function searches for. "
         "project level: one case = one source tree; generated exotic items, corpus files (plain, commandified, truncated, mutated), non-Rust text, "
-        "recursive and mutually recursive serde type graphs (every digraph on 3 named types with rotating root sets and containers, random 4-7 node graphs, wide/deep acyclic graphs, long rings) in both modes with exit status / signal / time limit as oracle, bounded deep nesting; isolation = base project with and without unparsable (or non-UTF-8) files. distinct = distinct inputs")
+        "every project stream crossed with the optional output-producing settings (verbose, visualize_deps, include_private, exclude patterns; by flag and by tauri.conf.json) and the three entry points (CLI, generate_from_config, BuildSystem), each in its own process; a multi-byte character swept over every byte offset 0..80 of type texts, names, literals and paths; recursive and mutually recursive serde type graphs (every digraph on 3 named types with rotating root sets and containers, random 4-7 node graphs, wide/deep acyclic graphs, long rings) in both modes with exit status / signal / time limit as oracle, bounded deep nesting; isolation = base project with and without unparsable (or non-UTF-8) files. distinct = distinct inputs")
 TRUSTED = [
     "python transcription of Rust's str::parse::<u64>/<f64> grammar (value of min/max only; not needed for panic-freedom)",
     "the token string handed to the attribute scanners is computed by the harness exactly as the code computes it (MetaList.tokens.to_string())",
@@ -336,32 +336,89 @@ def classify_failure(files, text):
     return None
 
 
+ALL_ON = {"verbose": True, "visualize_deps": True, "include_private": True, "exclude": ["**/generated/**"]}
+
+
+def run_oneshot(sb, case, tag):
+    """one library-entry run in its own child process of the driver (it may print to stdout or abort):
+    the child's exit status / signal and the result file are the observation"""
+    import json
+    import subprocess
+    cf, rf = sb.path("oneshot-%s.json" % tag), sb.path("oneshot-%s.out.json" % tag)
+    with open(cf, "w") as f:
+        json.dump(case, f)
+    try:
+        r = subprocess.run([vlib.harness_bin("c15"), "oneshot", cf, rf], timeout=60, stdout=subprocess.DEVNULL,
+                           stderr=subprocess.PIPE, env=vlib.ENV)
+    except subprocess.TimeoutExpired:
+        return {"crash": "timeout after 60 s"}
+    if r.returncode != 0 or not os.path.exists(rf):
+        return {"crash": "child exit status %s" % r.returncode, "stderr": r.stderr.decode("utf-8", "replace")[-600:]}
+    return json.load(open(rf))
+
+
+def typegen_conf(sb, mode, st, src, out):
+    import json
+    return json.dumps({"productName": "x", "plugins": {"typegen": {
+        "projectPath": src, "outputPath": out, "validationLibrary": mode,
+        "verbose": bool(st.get("verbose")), "visualizeDeps": bool(st.get("visualize_deps")),
+        "includePrivate": bool(st.get("include_private")), "excludePatterns": st.get("exclude") or [],
+        "force": True}}}, indent=1)
+
+
 def run_project(args):
-    """(tag, files, mode) -> Outcome; real CLI in a sandbox"""
-    tag, files, mode, lib = args
+    """(tag, files, mode, lib[, settings]) -> Outcome. Real CLI in a sandbox; settings = optional
+    output-producing switches {verbose, visualize_deps, include_private, exclude, via: flags|conf,
+    entries: subset of cli/lib/build}: every entry runs in its own process, exit status / signal / time limit judged"""
+    tag, files, mode, lib = args[:4]
+    st = args[4] if len(args) > 4 and args[4] else {}
+    entries = st.get("entries") or (["cli", "lib"] if lib else ["cli"])
+    detail = {}
+    ok = True
+    out = ""
+    code = 0
     with vlib.Sandbox("c15") as sb:
         sb.write_files(files, under="proj/src")
-        cli = ["generate", "-p", sb.path("proj/src"), "-o", sb.path("out"), "--force"]
-        if mode == "zod":
-            cli += ["-v", "zod"]
-        st, out = sb.cli(cli, cwd=sb.path("proj"), timeout=60)
-        detail = {"exit": st, "output": out[-1500:] if st not in (0, 1) else out[-300:]}
-        ok = st in (0, 1)
-        if lib:
-            o = vlib.run_harness("c15-project", [{"id": 0, "src_dir": sb.path("proj/src"), "out_dir": sb.path("out-lib"), "validation": mode}],
-                                 shards=1, per_case_timeout=60)[0]
-            detail["lib"] = o.get("result", o)
+        if "cli" in entries:
+            if st.get("via") == "conf":
+                sb.write("proj/tauri.conf.json", typegen_conf(sb, mode, st, sb.path("proj/src"), sb.path("out")))
+                cli = ["generate", "--force"]      # tauri.conf.json in the working directory is picked up
+            else:
+                cli = ["generate", "-p", sb.path("proj/src"), "-o", sb.path("out"), "--force"]
+                if mode == "zod":
+                    cli += ["-v", "zod"]
+                if st.get("verbose"):
+                    cli.append("--verbose")
+                if st.get("visualize_deps"):
+                    cli.append("--visualize-deps")
+            code, out = sb.cli(cli, cwd=sb.path("proj"), timeout=60)
+            detail.update({"exit": code, "output": out[-1500:] if code not in (0, 1) else out[-300:]})
+            ok = code in (0, 1)
+        for entry in ("lib", "build"):
+            if entry not in entries:
+                continue
+            if entry == "lib":
+                case = {"entry": "lib", "src_dir": sb.path("proj/src"), "out_dir": sb.path("out-lib"), "validation": mode,
+                        "verbose": st.get("verbose"), "visualize_deps": st.get("visualize_deps"),
+                        "include_private": st.get("include_private"), "exclude_patterns": st.get("exclude")}
+            else:
+                sb.write("proj/tauri.conf.json", typegen_conf(sb, mode, st, "./src", "./out-build"))
+                case = {"entry": "build", "dir": sb.path("proj")}
+            o = run_oneshot(sb, case, entry)
+            detail[entry] = o.get("result", o)
             if o.get("result") == "panic" or "crash" in o:
                 ok = False
-                detail["lib_detail"] = o.get("detail") or o.get("crash")
-                if st in (0, 1):
+                detail[entry + "_detail"] = o.get("detail") or o
+                if code in (0, 1):
                     out = "panicked at " + str(o.get("detail", "")).split(" @ ")[-1]
-            elif ok and (o.get("result") == "ok") != (st == 0):
+            elif entry == "lib" and "cli" in entries and code in (0, 1) and (o.get("result") == "ok") != (code == 0):
                 detail["lib_cli_disagree"] = True
     kf = None
     if not ok:
-        kf = classify_failure(files, out if st in (0, 1) else out)
+        kf = classify_failure(files, out)
     case = {"kind": tag, "mode": mode, "files": files}
+    if st:
+        case["settings"] = st
     return Outcome(case, True, ok, kf, detail, nontrivial=True)
 
 
@@ -393,41 +450,80 @@ def run_isolation(args):
     return Outcome({"kind": tag, "mode": mode, "base": base, "bad": bad}, True, ok, None, detail, nontrivial=True)
 
 
+SETTINGS = [
+    None,
+    dict(ALL_ON, via="flags"),
+    dict(ALL_ON, via="conf"),
+    {"verbose": True, "via": "flags"},
+    {"visualize_deps": True, "via": "flags"},
+    {"visualize_deps": True, "include_private": True, "via": "conf"},
+]
+
+
+def with_entries(st, *entries):
+    d = dict(st or {})
+    d["entries"] = list(entries)
+    return d
+
+
 def project_cases(rep, rng):
+    """every hostile-input stream is crossed with the optional output-producing settings (verbose,
+    visualize_deps, include_private, exclude patterns; by CLI flag and by tauri.conf.json) and with the
+    three entry points (CLI, generate_from_config, BuildSystem), each run in its own process"""
     quick = rep.tier == "quick"
     cases = []
     dist = {}
 
-    def add(tag, files, mode=None, lib=False):
-        cases.append((tag, files, mode or rng.choice(["none", "zod"]), lib))
+    def add(tag, files, mode=None, lib=False, settings=None):
+        cases.append((tag, files, mode or rng.choice(["none", "zod"]), lib, settings))
         dist[tag] = dist.get(tag, 0) + 1
+        if not settings:
+            key = "settings:none"
+        else:
+            on = "+".join(k for k in ("verbose", "visualize_deps", "include_private") if settings.get(k))
+            key = "settings:%s:%s:%s" % (settings.get("via", "-"), on, "+".join(settings.get("entries", ["cli"])))
+        dist[key] = dist.get(key, 0) + 1
     # generated exotic items
     for i in range(1500 if quick else 12000):
         g = G.RustGen(rng, risky=(i % 10 == 0))
         files = {"lib.rs": g.file()}
         if rng.random() < 0.3:
             files["sub/mod%d.rs" % i] = g.file(3)
-        add("exotic-risky" if g.risky else "exotic", files, lib=(i % 4 == 0))
-    for t in G.NOT_RUST:
-        add("not-rust", {"lib.rs": t})
-        add("not-rust+base", dict(BASE_PROJECT, **{"junk.rs": t}))
+        st = SETTINGS[i % len(SETTINGS)]
+        if st and i % 16 == 1:
+            st = with_entries(st, "cli", "lib", "build")
+        add("exotic-risky" if g.risky else "exotic", files, lib=(i % 4 == 0), settings=st)
+    for j, t in enumerate(G.NOT_RUST):
+        add("not-rust", {"lib.rs": t}, settings=SETTINGS[j % len(SETTINGS)])
+        add("not-rust+base", dict(BASE_PROJECT, **{"junk.rs": t}), settings=SETTINGS[(j + 1) % len(SETTINGS)])
     for d in ((8, 40) if quick else (8, 40, 120)):
         for t in G.deep_nesting(d):
             add("deep-%d" % d, {"lib.rs": t})
-    # recursive / mutually recursive type graphs: the generation half (dependency ordering) in both modes;
-    # an abort or stack overflow there kills the process, so the oracle is exit status / signal / time limit
+            add("deep-%d" % d, {"lib.rs": t}, settings=with_entries(dict(ALL_ON, via="flags"), "cli", "lib", "build"))
+    # recursive / mutually recursive type graphs: the generation half (dependency ordering, dependency-graph
+    # drawing) in both modes; an abort or stack overflow there kills the process, so the oracle is exit status /
+    # signal / time limit. Each graph: plain in both modes, and with every setting on (flags / conf alternating)
     for i, (tag, src) in enumerate(G.type_graph_cases(rep.tier, rng)):
         for mode in ("zod", "none"):
-            cases.append((tag, {"lib.rs": src}, mode, i % 8 == 0))
-            dist[tag] = dist.get(tag, 0) + 1
+            add(tag, {"lib.rs": src}, mode, lib=(i % 8 == 0))
+        st = dict(ALL_ON, via=("flags", "conf")[i % 2])
+        if i % 8 == 3:
+            st = with_entries(st, "cli", "lib", "build")
+        add(tag, {"lib.rs": src}, ("zod", "none")[(i // 2) % 2], settings=st)
+    # a multi-byte character at every byte offset 0..80 of type texts, names, literals and paths, all settings on,
+    # through the CLI and the library entry (verbose), every 8th also through BuildSystem
+    for k, ch, src_files in G.offset_sources(80 if quick else 130):
+        ents = ["cli", "lib"] + (["build"] if k % 8 == 0 else [])
+        add("offset-sweep", src_files, ("zod", "none")[k % 2], settings=with_entries(dict(ALL_ON, via=("flags", "conf")[(k // 2) % 2]), *ents))
     corpus, nreg = G.corpus_files(vlib.REPO, rep.tier)
     rep.extra["corpus_files"] = len(corpus)
     rep.extra["registry_rs_files_total"] = nreg
-    for p, text in corpus:
+    for n, (p, text) in enumerate(corpus):
         add("corpus", {"lib.rs": text}, lib=False)
-        add("corpus-commandified", {"lib.rs": G.commandify(text)}, lib=True)
+        add("corpus-commandified", {"lib.rs": G.commandify(text)}, settings=with_entries(dict(ALL_ON, via=("flags", "conf")[n % 2]), "cli", "lib"))
         for _ in range(3 if quick else 4):
-            add("corpus-mutated", {"lib.rs": G.mutate(G.commandify(text) if rng.random() < 0.7 else text, rng)})
+            add("corpus-mutated", {"lib.rs": G.mutate(G.commandify(text) if rng.random() < 0.7 else text, rng)},
+                settings=SETTINGS[rng.randrange(len(SETTINGS))])
     rep.extra["project_distribution"] = dist
     return cases
 
@@ -488,6 +584,15 @@ CORPUS_PROJECT = [
     ("regress-recursive-type", {"lib.rs": G.type_graph_source(["TreeNode", "Meta"], [(0, 1), (0, 0)], [0])}, "none"),
     ("regress-mutual-recursion", {"lib.rs": G.type_graph_source(["Alpha", "Meta", "Zeta"], [(0, 1), (1, 2), (2, 0), (0, 2), (2, 1)], [0, 2])}, "zod"),
 ]
+# settings crossed with hostile inputs (seeded C15-5 / C15-6 classes): (tag, files, mode, settings)
+CORPUS_SETTINGS = [
+    ("regress-visualize-mutual", {"lib.rs": G.type_graph_source(["Folder", "Document"], [(0, 1), (1, 0)], [0])}, "none",
+     dict(ALL_ON, via="flags", entries=["cli", "build"])),
+    ("regress-visualize-mutual", {"lib.rs": G.type_graph_source(["Alpha", "Meta", "Zeta"], [(0, 1), (1, 2), (2, 0), (2, 2)], [0])}, "zod",
+     dict(ALL_ON, via="conf", entries=["cli", "lib", "build"])),
+    ("regress-verbose-offset-44", G.offset_sources(80)[44 * 3][2], "none", dict(ALL_ON, via="flags", entries=["cli", "lib"])),
+    ("regress-verbose-offset-43", G.offset_sources(80)[43 * 3 + 1][2], "zod", dict(ALL_ON, via="conf", entries=["cli", "lib", "build"])),
+]
 
 
 def run_corpus(rep):
@@ -497,7 +602,8 @@ def run_corpus(rep):
     rep.add("corpus-naming", eval_naming(CORPUS_NAMING))
     rep.add("corpus-type", eval_type(["Result<(HashMap<String, User>, Inner), String>", "Option<", "Option<>", "(", "()", "(,)", "&&&T", "HashMap<A>",
                                       "BTreeMap<é,　>", "Vec<é>", ">", "Result<>", "(é)", "Option<　A　>"]))
-    rep.add("corpus-project", vlib.pmap(run_project, [(t, f, m, True) for t, f, m in CORPUS_PROJECT]))
+    rep.add("corpus-project", vlib.pmap(run_project, [(t, f, m, True) for t, f, m in CORPUS_PROJECT]
+                                        + [(t, f, m, True, st) for t, f, m, st in CORPUS_SETTINGS]))
     # corpus/C15/*.json: minimised past disagreements, if any
     cdir = os.path.join(vlib.VERIF, "corpus", "C15")
     if os.path.isdir(cdir):
@@ -527,7 +633,7 @@ def replay_items(rep, payload):
         elif c.get("kind") == "isolation":
             outs = [run_isolation(("isolation", c["base"], c["bad"], c["mode"]))]
         else:
-            outs = [run_project((c.get("kind", "replay"), c["files"], c.get("mode", "none"), True))]
+            outs = [run_project((c.get("kind", "replay"), c["files"], c.get("mode", "none"), True, c.get("settings")))]
         rep.add(stream, outs)
 
 
@@ -575,7 +681,7 @@ def run(rep):
         key = (tuple(sorted(base.items())), mode)
         if key not in seen:
             seen.add(key)
-            pcs.append(("isolation-base", base, mode, False))
+            pcs.append(("isolation-base", base, mode, False, None))
     dist["project"] = add_chunked(rep, "project", lambda x: vlib.pmap(run_project, x), pcs, size=2000, sample_count=1)
     dist["isolation"] = add_chunked(rep, "isolation", lambda x: vlib.pmap(run_isolation, x), ics, size=2000, sample_count=1)
     rep.extra["input_distribution"] = dist
